@@ -1,6 +1,7 @@
 """Per-property job lists (bounds per tier) and the texts that go into the evidence."""
 from props_front import POOL, c09_shapes
 import props_pipe
+import props_time
 
 COMMON_ASSUME = [
     'input strings are well-formed UTF-8 (Rust &str invariant), constrained by the exact RFC 3629 formula',
@@ -191,4 +192,13 @@ PROPS = {
                 explanation='clean on block documents: b blank lines before and a after a removed default-strategy block (a, b = 0..4, every blank line a symbolic '
                             'whitespace hole, indentation holes on every line, two blocks, pending parent, with/without final newline): surviving non-blank '
                             'lines byte-for-byte in order, and exactly a+b-[a>0 and b>0] blank lines between the neighbours.'),
+    'C05': dict(jobs=props_time.c05_jobs, tv=('front', 'pipe', 'time'), assumptions=PIPE_ASSUME + [
+                    'years 1970..2200, seconds 00..59 (the leap second :60 is outside the claim), offsets up to 14:59 in both spellings',
+                    'chrono itself is not executed symbolically: what is decided is chiritori\'s own evaluator (attribute read, concatenation with the '
+                    'configured offset, format literal, direction and strictness of the comparison, fail-safe returns) over the chrono stub; the stub is '
+                    'compared with the real chrono natively on a table of well-formed / malformed strings and on sampled path models every run'],
+                explanation='TimeLimitedEvaluator::is_removal with the 14 digits of `to`, the offset (sign, digits, both spellings) and the current instant '
+                            'symbolic: is_removal <=> now >= civil instant - offset against an independent Rata-Die reference in 64-bit arithmetic (equality '
+                            'included); monotonicity with two symbolic instants; malformed classes (incl. one symbolic byte at each separator) never ready; '
+                            'boundary-second probes through the real clean with negative / positive / colon-less offsets.'),
 }
